@@ -19,7 +19,17 @@
 
    litep2p specifics kept: the static key is fresh per session (NoiseContext::new), the identity
    payload (key, signature over DOMAIN ++ static key) is assembled at session creation, the
-   dialer sends message 3 together with accepting. *)
+   dialer sends message 3 together with accepting, the listener reads message 3 only for the
+   message 2 it wrote itself (event Answered), and every session mixes ITS OWN prologue into the
+   handshake hash (`pro`, an arbitrary assignment of prologues to sessions: empty for TCP and
+   WebSocket, "libp2p-webrtc-noise:" ++ fingerprints for WebRTC).
+
+   Results: secrecy of all honest secrets and of the session keys, authentication in the standard
+   form, and AGREEMENT derived from a ciphertext-origin invariant (`encok`: every ciphertext the
+   attacker can ever deliver is under a key it knows or was written by an honest session as its
+   message 2 or 3) — no no-forgery hypothesis: an accepting dialer talked to one listener session of
+   P that answered its own ephemeral key under the same prologue; an accepting listener talked to a
+   dialer session of P that completed accepting exactly this listener with the same key. *)
 From Coq Require Import List NArith Bool Lia.
 Import ListNotations.
 Open Scope N_scope.
@@ -55,24 +65,34 @@ Inductive event :=
 | NewD (a e s : N)                              (* a dialer session of agent a with secrets e, s *)
 | NewL (a e s : N)                              (* a listener session *)
 | Signed (a : N) (t : term)                     (* agent a signed t in an honest session *)
+| Answered (a e s y : N)                        (* the listener session (a, e, s) wrote message 2 in
+                                                   answer to a received g^y *)
 | AcceptD (a e s : N) (P rs : N) (K : term)     (* the dialer session completed: peer P, remote
                                                    static g^rs, session key K *)
 | AcceptL (a e s : N) (P rs : N) (K : term).
 
 (* ---- the protocol's terms ---- *)
 Definition ck0 : term := TData [0].
-Definition h0 : term := TData [1].
 Definition DOM : term := TData [2].
 Definition empty : term := TData [].
 
 Definition signed_part (s : N) : term := TPair DOM (TPub s).
 Definition payload (a s : N) : term := TPair (TIdPub a) (TSig a (signed_part s)).
 
+(* the handshake hash starts from the protocol name and the prologue (MixHash(prologue)): empty for
+   TCP and WebSocket, "libp2p-webrtc-noise:" ++ the two DTLS fingerprints for WebRTC *)
+Definition h0 (p : list N) : term := THash (TData [1]) (TData p).
+
 (* transcript hash after message 1 (-> e, empty payload) *)
-Definition hm1 (E : term) : term := THash (THash h0 E) empty.
+Definition hm1 (p : list N) (E : term) : term := THash (THash (h0 p) E) empty.
+
+Section DY.
+  (* the prologue each session was created with, indexed by the session's ephemeral secret (every
+     session has its own): an ARBITRARY assignment, so sessions may disagree about it *)
+  Variable pro : N -> list N.
 
 (* message 2 as the listener (secrets e, s) builds it for a received g^y *)
-Definition l_h1 (e y : N) : term := THash (hm1 (TPub y)) (TPub e).
+Definition l_h1 (e y : N) : term := THash (hm1 (pro e) (TPub y)) (TPub e).
 Definition l_k1 (e y : N) : term := TMix ck0 (dh e y).
 Definition l_c1 (e s y : N) : term := TEnc (l_k1 e y) (l_h1 e y) (TPub s).
 Definition l_h2 (e s y : N) : term := THash (l_h1 e y) (l_c1 e s y).
@@ -82,7 +102,7 @@ Definition l_h3 (a e s y : N) : term := THash (l_h2 e s y) (l_c2 a e s y).
 Definition msg2 (a e s y : N) : term := TPair (TPub e) (TPair (l_c1 e s y) (l_c2 a e s y)).
 
 (* message 2 as the dialer (ephemeral e) expects it: ephemeral g^y, static g^rs, identity P *)
-Definition d_h1 (e y : N) : term := THash (hm1 (TPub e)) (TPub y).
+Definition d_h1 (e y : N) : term := THash (hm1 (pro e) (TPub e)) (TPub y).
 Definition d_k1 (e y : N) : term := TMix ck0 (dh e y).
 Definition d_c1 (e y rs : N) : term := TEnc (d_k1 e y) (d_h1 e y) (TPub rs).
 Definition d_h2 (e y rs : N) : term := THash (d_h1 e y) (d_c1 e y rs).
@@ -106,7 +126,6 @@ Definition l_key (e s y rs : N) : term := TMix (l_k2 e s y) (dh e rs).
 Definition l_c4 (a e s y rs P : N) : term := TEnc (l_key e s y rs) (l_h4 a e s y rs) (payload P rs).
 Definition msg3_expected (a e s y rs P : N) : term := TPair (l_c3 a e s y rs) (l_c4 a e s y rs P).
 
-Section DY.
   Variable asec : N -> Prop.     (* Diffie-Hellman secrets owned by the attacker *)
   Variable bad : N -> Prop.      (* agents whose identity secret the attacker knows *)
 
@@ -147,12 +166,12 @@ Section DY.
       valid (Signed a (signed_part s) :: NewL a e s :: tr)
   | v_L2 tr a e s y :                       (* the listener answers some received g^y *)
       valid tr -> In (NewL a e s) tr ->
-      valid (Send (msg2 a e s y) :: tr)
+      valid (Send (msg2 a e s y) :: Answered a e s y :: tr)
   | v_D3 tr a e s y rs P :                  (* the dialer reads message 2, writes 3, accepts P *)
       valid tr -> In (NewD a e s) tr -> knows tr (msg2_expected e y rs P) ->
       valid (AcceptD a e s P rs (d_key e s y rs) :: Send (msg3 a e s y rs P) :: tr)
   | v_L4 tr a e s y rs P :                  (* the listener reads message 3, accepts P *)
-      valid tr -> In (NewL a e s) tr -> In (Send (msg2 a e s y)) tr ->
+      valid tr -> In (NewL a e s) tr -> In (Answered a e s y) tr ->
       knows tr (msg3_expected a e s y rs P) ->
       valid (AcceptL a e s P rs (l_key e s y rs) :: tr).
 
@@ -214,7 +233,7 @@ Section DY.
     - destruct U as [[= <-]|U]; [exact (knows_pub tr IH t K) | exact (IH u U)].
     - destruct U as [[= <-]|[U|[U|U]]]; try discriminate; [exact I | exact (IH u U)].
     - destruct U as [U|[U|U]]; try discriminate. exact (IH u U).
-    - destruct U as [[= <-]|U]; [|exact (IH u U)].
+    - destruct U as [[= <-]|[U|U]]; try discriminate; [|exact (IH u U)].
       unfold msg2, l_c1, l_c2. cbn [pub]. pose proof (payload_pub a s). cbn [pub] in *. tauto.
     - destruct U as [U|[[= <-]|U]]; try discriminate; [|exact (IH u U)].
       unfold msg3, d_c3, d_c4. pose proof (payload_pub a s). cbn [pub] in *. tauto.
@@ -236,7 +255,7 @@ Section DY.
       injection U as <- <- <-. split; [apply Fe|apply Fs].
     - destruct U as [[U|[U|U]]|[U|[U|U]]]; try discriminate; try (apply (IH a e s); auto; fail).
       injection U as <- <- <-. split; [apply Fe|apply Fs].
-    - apply (IH a e s). destruct U as [[U|U]|[U|U]]; try discriminate; auto.
+    - apply (IH a e s). destruct U as [[U|[U|U]]|[U|[U|U]]]; try discriminate; auto.
     - apply (IH a e s). destruct U as [[U|[U|U]]|[U|[U|U]]]; try discriminate; auto.
     - apply (IH a e s). destruct U as [[U|U]|[U|U]]; try discriminate; auto.
   Qed.
@@ -285,7 +304,7 @@ Section DY.
       + do 2 right. apply (IH a e s). auto.
       + injection U as <- <- <-. left. reflexivity.
       + do 2 right. apply (IH a e s). auto.
-    - right. apply (IH a e s). destruct U as [[U|U]|[U|U]]; try discriminate; auto.
+    - do 2 right. apply (IH a e s). destruct U as [[U|[U|U]]|[U|[U|U]]]; try discriminate; auto.
     - do 2 right. apply (IH a e s). destruct U as [[U|[U|U]]|[U|[U|U]]]; try discriminate; auto.
     - right. apply (IH a e s). destruct U as [[U|U]|[U|U]]; try discriminate; auto.
   Qed.
@@ -306,12 +325,12 @@ Section DY.
       apply (sigok_mono tr); [do 3 apply incl_tl; apply incl_refl|]. exact (IH u U).
     - destruct U as [U|[U|U]]; try discriminate.
       apply (sigok_mono tr); [do 2 apply incl_tl; apply incl_refl|]. exact (IH u U).
-    - destruct U as [[= <-]|U].
-      + apply (sigok_mono tr); [apply incl_tl, incl_refl|].
+    - destruct U as [[= <-]|[U|U]]; try discriminate.
+      + apply (sigok_mono tr); [do 2 apply incl_tl; apply incl_refl|].
         pose proof (new_session_signed tr V a e s (or_intror I)) as S.
         pose proof (payload_sigok tr a s S) as PS.
         pose proof (sigok_dh tr e y). pose proof (sigok_dh tr s y). cbn in PS |- *. tauto.
-      + apply (sigok_mono tr); [apply incl_tl, incl_refl|]. exact (IH u U).
+      + apply (sigok_mono tr); [do 2 apply incl_tl; apply incl_refl|]. exact (IH u U).
     - destruct U as [U|[[= <-]|U]]; try discriminate.
       + apply (sigok_mono tr); [do 2 apply incl_tl; apply incl_refl|].
         pose proof (new_session_signed tr V a e s (or_introl I)) as S.
@@ -340,8 +359,9 @@ Section DY.
       + injection U as <- <-. exists e0, s0. split; [reflexivity|]. right. right. left. reflexivity.
       + destruct (IH a u U) as (e & s & E & O). exists e, s. split; [exact E|].
         destruct O; [left|right]; do 2 right; assumption.
-    - destruct U as [U|U]; try discriminate.
-      destruct (IH a u U) as (e & s & E & O). exists e, s. split; [exact E|]. destruct O; [left|right]; right; assumption.
+    - destruct U as [U|[U|U]]; try discriminate.
+      destruct (IH a u U) as (e & s & E & O). exists e, s. split; [exact E|].
+      destruct O; [left|right]; do 2 right; assumption.
     - destruct U as [U|[U|U]]; try discriminate.
       destruct (IH a u U) as (e & s & E & O). exists e, s. split; [exact E|].
       destruct O; [left|right]; do 2 right; assumption.
@@ -385,9 +405,9 @@ Section DY.
     - destruct U as [U|[U|U]]; try discriminate.
       destruct (IH _ _ _ _ _ _ U) as (tr0 & y & I0 & R). exists tr0, y.
       split; [do 2 apply incl_tl; exact I0|]. destruct R as (R1 & R2 & R3 & R4 & R5). repeat split; auto. do 2 right. exact R5.
-    - destruct U as [U|U]; try discriminate.
+    - destruct U as [U|[U|U]]; try discriminate.
       destruct (IH _ _ _ _ _ _ U) as (tr0 & y & I0 & R). exists tr0, y.
-      split; [apply incl_tl; exact I0|]. destruct R as (R1 & R2 & R3 & R4 & R5). repeat split; auto. right. exact R5.
+      split; [do 2 apply incl_tl; exact I0|]. destruct R as (R1 & R2 & R3 & R4 & R5). repeat split; auto. do 2 right. exact R5.
     - destruct U as [U|[U|U]]; try discriminate.
       + injection U as <- <- <- <- <- <-. exists tr, y0.
         split; [do 2 apply incl_tl; apply incl_refl|]. repeat split; auto. right. left. reflexivity.
@@ -401,7 +421,7 @@ Section DY.
   Lemma acceptL_origin tr :
     valid tr -> forall a e s P rs K, In (AcceptL a e s P rs K) tr ->
     exists tr0 y, incl tr0 tr /\ valid tr0 /\ In (NewL a e s) tr0 /\
-                  In (Send (msg2 a e s y)) tr0 /\
+                  In (Answered a e s y) tr0 /\
                   knows tr0 (msg3_expected a e s y rs P) /\ K = l_key e s y rs.
   Proof.
     induction 1 as [|tr t V IH K0|tr a0 e0 s0 V IH Fe Fs|tr a0 e0 s0 V IH Fe Fs|tr a0 e0 s0 y0 V IH I|
@@ -414,8 +434,8 @@ Section DY.
       destruct (IH _ _ _ _ _ _ U) as (tr0 & y & I0 & R). exists tr0, y. split; [do 3 apply incl_tl; exact I0|exact R].
     - destruct U as [U|[U|U]]; try discriminate.
       destruct (IH _ _ _ _ _ _ U) as (tr0 & y & I0 & R). exists tr0, y. split; [do 2 apply incl_tl; exact I0|exact R].
-    - destruct U as [U|U]; try discriminate.
-      destruct (IH _ _ _ _ _ _ U) as (tr0 & y & I0 & R). exists tr0, y. split; [apply incl_tl; exact I0|exact R].
+    - destruct U as [U|[U|U]]; try discriminate.
+      destruct (IH _ _ _ _ _ _ U) as (tr0 & y & I0 & R). exists tr0, y. split; [do 2 apply incl_tl; exact I0|exact R].
     - destruct U as [U|[U|U]]; try discriminate.
       destruct (IH _ _ _ _ _ _ U) as (tr0 & y & I0 & R). exists tr0, y. split; [do 2 apply incl_tl; exact I0|exact R].
     - destruct U as [U|U].
@@ -502,7 +522,7 @@ Section DY.
   Lemma used_names tr x : In x (flat_map names tr) -> used tr x.
   Proof.
     intros I. apply in_flat_map in I as (ev & E & X).
-    destruct ev as [t|a e s|a e s|a t|a e s P rs K|a e s P rs K]; cbn [names] in X; try contradiction.
+    destruct ev as [t|a e s|a e s|a t|a e s y|a e s P rs K|a e s P rs K]; cbn [names] in X; try contradiction.
     - exists a, e, s. split; [left; exact E|]. destruct X as [<-|[<-|[]]]; auto.
     - exists a, e, s. split; [right; exact E|]. destruct X as [<-|[<-|[]]]; auto.
   Qed.
@@ -552,7 +572,7 @@ Section DY.
       injection U as <- <- <-. exact Ne.
     - destruct U as [[U|[U|U]]|[U|[U|U]]]; try discriminate; try (apply (IH a e s); auto; fail).
       injection U as <- <- <-. exact Ne.
-    - apply (IH a e s). destruct U as [[U|U]|[U|U]]; try discriminate; auto.
+    - apply (IH a e s). destruct U as [[U|[U|U]]|[U|[U|U]]]; try discriminate; auto.
     - apply (IH a e s). destruct U as [[U|[U|U]]|[U|[U|U]]]; try discriminate; auto.
     - apply (IH a e s). destruct U as [[U|U]|[U|U]]; try discriminate; auto.
   Qed.
@@ -600,27 +620,260 @@ Section DY.
       + pose proof (owner_unique tr (NewL P' e2 s) _ s V O ND) as Q.
         cbn in Q. discriminate Q; auto.
   Qed.
+  (* only listener sessions answer *)
+  Lemma answered_origin tr :
+    valid tr -> forall a e s y, In (Answered a e s y) tr -> In (NewL a e s) tr.
+  Proof.
+    induction 1 as [|tr t V IH K|tr a0 e0 s0 V IH Fe Fs|tr a0 e0 s0 V IH Fe Fs|tr a0 e0 s0 y0 V IH I|
+                    tr a0 e0 s0 y0 rs P V IH I K|tr a0 e0 s0 y0 rs P V IH I I2 K]; intros a e s y U.
+    - destruct U.
+    - right. apply (IH a e s y). destruct U as [U|U]; try discriminate; auto.
+    - do 3 right. apply (IH a e s y). destruct U as [U|[U|[U|U]]]; try discriminate; auto.
+    - do 2 right. apply (IH a e s y). destruct U as [U|[U|U]]; try discriminate; auto.
+    - do 2 right. destruct U as [U|[U|U]]; try discriminate.
+      + injection U as <- <- <- <-. exact I.
+      + exact (IH a e s y U).
+    - do 2 right. apply (IH a e s y). destruct U as [U|[U|U]]; try discriminate; auto.
+    - right. apply (IH a e s y). destruct U as [U|U]; try discriminate; auto.
+  Qed.
+
+  (* ================================================================================ *)
+  (* ---- where ciphertexts come from: transcript agreement ---- *)
+  (* a ciphertext under a key the attacker cannot know was made by an honest session: by a
+     listener session writing message 2, or by a dialer session writing message 3 *)
+  Definition honest_enc (tr : list event) (c : term) : Prop :=
+    (exists a e s y, In (Answered a e s y) tr /\ (c = l_c1 e s y \/ c = l_c2 a e s y)) \/
+    (exists a e s y rs P, In (AcceptD a e s P rs (d_key e s y rs)) tr /\
+                          (c = d_c3 e s y rs P \/ c = d_c4 a e s y rs P)).
+
+  Fixpoint encok (tr : list event) (t : term) : Prop :=
+    match t with
+    | TEnc k h pt => (pub k \/ honest_enc tr (TEnc k h pt)) /\ encok tr k /\ encok tr h /\ encok tr pt
+    | TSig _ u => encok tr u
+    | TPair a b | TMix a b | THash a b => encok tr a /\ encok tr b
+    | _ => True
+    end.
+
+  Lemma honest_enc_mono tr tr' c : incl tr tr' -> honest_enc tr c -> honest_enc tr' c.
+  Proof.
+    intros I [(a & e & s & y & N0 & E)|(a & e & s & y & rs & P & A & E)].
+    - left. exists a, e, s, y. split; [apply I; exact N0|exact E].
+    - right. exists a, e, s, y, rs, P. split; [apply I; exact A|exact E].
+  Qed.
+
+  Lemma encok_mono tr tr' t : incl tr tr' -> encok tr t -> encok tr' t.
+  Proof.
+    intros I. induction t; cbn [encok]; try tauto.
+    intros [[B|Hc] R]; (split; [|tauto]); [left; exact B | right; exact (honest_enc_mono _ _ _ I Hc)].
+  Qed.
+
+  Lemma encok_dh tr x y : encok tr (dh x y).
+  Proof. unfold dh. destruct (x <=? y); exact I. Qed.
+
+  Lemma knows_encok tr :
+    (forall t, In (Send t) tr -> pub t) -> (forall t, In (Send t) tr -> encok tr t) ->
+    forall t, knows tr t -> encok tr t.
+  Proof.
+    intros SP SE t K. induction K; cbn [encok] in *; try tauto.
+    - apply SE. assumption.
+    - apply encok_dh.
+    - split; [|tauto]. left. exact (knows_pub tr SP _ K1).
+  Qed.
+
+  Lemma payload_encok tr a s : encok tr (payload a s).
+  Proof. cbn. tauto. Qed.
+
+  Ltac atoms := repeat (cbn [encok]; first [exact I | apply encok_dh | split]).
+
+  Lemma l_c1_encok tr a e s y : In (Answered a e s y) tr -> encok tr (l_c1 e s y).
+  Proof.
+    intros N0. unfold l_c1. cbn [encok]. split.
+    - right. left. exists a, e, s, y. split; [exact N0|left; reflexivity].
+    - unfold l_k1, l_h1, hm1, h0, ck0, empty. atoms.
+  Qed.
+
+  Lemma l_c2_encok tr a e s y : In (Answered a e s y) tr -> encok tr (l_c2 a e s y).
+  Proof.
+    intros N0. pose proof (l_c1_encok tr a e s y N0) as C1.
+    unfold l_c2. cbn [encok]. split; [|split; [|split]].
+    - right. left. exists a, e, s, y. split; [exact N0|right; reflexivity].
+    - unfold l_k2, l_k1, ck0. atoms.
+    - unfold l_h2. cbn [encok]. split; [|exact C1]. unfold l_h1, hm1, h0, empty. atoms.
+    - apply payload_encok.
+  Qed.
+
+  Lemma d_h3_encok tr e y rs P :
+    encok tr (d_c1 e y rs) -> encok tr (d_c2 e y rs P) -> encok tr (d_h3 e y rs P).
+  Proof.
+    intros C1 C2. unfold d_h3, d_h2. cbn [encok]. split; [split|]; [|exact C1|exact C2].
+    unfold d_h1, hm1, h0, empty. atoms.
+  Qed.
+
+  Lemma d_c3_encok tr a e s y rs P :
+    In (AcceptD a e s P rs (d_key e s y rs)) tr ->
+    encok tr (d_c1 e y rs) -> encok tr (d_c2 e y rs P) -> encok tr (d_c3 e s y rs P).
+  Proof.
+    intros A C1 C2. unfold d_c3. cbn [encok]. split; [|split; [|split]].
+    - right. right. exists a, e, s, y, rs, P. split; [exact A|left; reflexivity].
+    - unfold d_k2, d_k1, ck0. atoms.
+    - apply d_h3_encok; assumption.
+    - exact I.
+  Qed.
+
+  Lemma d_c4_encok tr a e s y rs P :
+    In (AcceptD a e s P rs (d_key e s y rs)) tr ->
+    encok tr (d_c1 e y rs) -> encok tr (d_c2 e y rs P) -> encok tr (d_c4 a e s y rs P).
+  Proof.
+    intros A C1 C2. unfold d_c4. cbn [encok]. split; [|split; [|split]].
+    - right. right. exists a, e, s, y, rs, P. split; [exact A|right; reflexivity].
+    - unfold d_key, d_k2, d_k1, ck0. atoms.
+    - unfold d_h4. cbn [encok]. split; [apply d_h3_encok; assumption|].
+      exact (d_c3_encok tr a e s y rs P A C1 C2).
+    - apply payload_encok.
+  Qed.
+
+  Lemma valid_sent_encok tr : valid tr -> forall t, In (Send t) tr -> encok tr t.
+  Proof.
+    induction 1 as [|tr t V IH K|tr a e s V IH|tr a e s V IH|tr a e s y V IH I0|
+                    tr a e s y rs P V IH I0 K|tr a e s y rs P V IH I0 I2 K]; intros u U.
+    - destruct U.
+    - destruct U as [[= <-]|U].
+      + apply (encok_mono tr); [apply incl_tl, incl_refl|].
+        exact (knows_encok tr (valid_sent_pub tr V) IH t K).
+      + apply (encok_mono tr); [apply incl_tl, incl_refl|]. exact (IH u U).
+    - destruct U as [[= <-]|[U|[U|U]]]; try discriminate; [exact I|].
+      apply (encok_mono tr); [do 3 apply incl_tl; apply incl_refl|]. exact (IH u U).
+    - destruct U as [U|[U|U]]; try discriminate.
+      apply (encok_mono tr); [do 2 apply incl_tl; apply incl_refl|]. exact (IH u U).
+    - destruct U as [[= <-]|[U|U]]; try discriminate.
+      + (* message 2 of the listener session (a, e, s) *)
+        assert (A : In (Answered a e s y) (Send (msg2 a e s y) :: Answered a e s y :: tr)) by (right; left; reflexivity).
+        unfold msg2. cbn [encok]. split; [exact I|]. split.
+        * exact (l_c1_encok _ a e s y A).
+        * exact (l_c2_encok _ a e s y A).
+      + apply (encok_mono tr); [do 2 apply incl_tl; apply incl_refl|]. exact (IH u U).
+    - destruct U as [U|[[= <-]|U]]; try discriminate.
+      + (* message 3 of the dialer session (a, e, s): the ciphertexts it read are the attacker's *)
+        set (tr' := AcceptD a e s P rs (d_key e s y rs) :: Send (msg3 a e s y rs P) :: tr).
+        pose proof (knows_encok tr (valid_sent_pub tr V) IH _ K) as M2.
+        apply (encok_mono tr tr') in M2; [|do 2 apply incl_tl; apply incl_refl].
+        unfold msg2_expected in M2. cbn [encok] in M2. destruct M2 as (_ & M21 & M22).
+        assert (A : In (AcceptD a e s P rs (d_key e s y rs)) tr') by (left; reflexivity).
+        unfold msg3. cbn [encok]. split.
+        * exact (d_c3_encok tr' a e s y rs P A M21 M22).
+        * exact (d_c4_encok tr' a e s y rs P A M21 M22).
+      + apply (encok_mono tr); [do 2 apply incl_tl; apply incl_refl|]. exact (IH u U).
+    - destruct U as [U|U]; try discriminate.
+      apply (encok_mono tr); [apply incl_tl, incl_refl|]. exact (IH u U).
+  Qed.
+
+  Lemma knows_encok_valid tr t : valid tr -> knows tr t -> encok tr t.
+  Proof. intros V. apply knows_encok; [apply valid_sent_pub|apply valid_sent_encok]; exact V. Qed.
+
+  Lemma h0_inj p q : h0 p = h0 q -> p = q.
+  Proof. unfold h0. intros [= E]. exact E. Qed.
+
+  (* AUTHENTICATION WITH AGREEMENT, dialer.  If an honest dialer session (ephemeral e) completes
+     believing in an uncompromised P, then the ephemeral key g^y and the static key g^rs it received
+     belong to ONE listener session of P — (P, y, rs) is a listener session in the trace —, that
+     session HAS WRITTEN message 2 in answer to this very dialer's g^e, it was created with the same
+     prologue, and the message 2 the dialer accepted is, component for component, that message. *)
+  Theorem dialer_agreement tr a e s P rs K :
+    valid tr -> In (AcceptD a e s P rs K) tr -> ~ bad P ->
+    exists y, K = d_key e s y rs /\ In (NewL P y rs) tr /\ In (Answered P y rs e) tr /\
+              pro e = pro y /\ msg2_expected e y rs P = msg2 P y rs e.
+  Proof.
+    intros V A G.
+    destruct (acceptD_origin tr V _ _ _ _ _ _ A) as (tr0 & y & I0 & V0 & N0 & K0 & -> & _).
+    destruct (delivered_payload tr0 P rs _ V0 K0 G) as (_ & e' & O).
+    { unfold msg2_expected, d_c2. cbn [sigok]. tauto. }
+    destruct (session_secrets tr0 V0 P e' rs O) as [_ Hrs].
+    destruct (session_secrets tr0 V0 a e s (or_introl N0)) as [He _].
+    pose proof (knows_encok_valid tr0 _ V0 K0) as EK.
+    unfold msg2_expected in EK. cbn [encok] in EK. destruct EK as (_ & _ & EK).
+    unfold d_c2 in EK. cbn [encok] in EK. destruct EK as ([PK|HE] & _).
+    { exfalso. unfold d_k2 in PK. cbn [pub] in PK. destruct PK as [_ PK]. apply pub_dh in PK. tauto. }
+    exists y. split; [reflexivity|].
+    destruct HE as [(a' & e1 & s1 & y1 & N1 & [E|E])|(a' & e1 & s1 & y1 & rs1 & P1 & _ & [E|E])].
+    - exfalso. unfold l_c1, d_k2, d_k1, l_k1, ck0 in E. discriminate E.
+    - unfold l_c2, d_k2, d_k1, l_k2, l_k1, d_h2, l_h2, d_h1, l_h1, hm1, payload, signed_part in E.
+      injection E. intros Es Ea _ _ Ee1 Ey1 Ep _ _ _ _ _ _. subst s1 a' e1 y1.
+      assert (M : msg2_expected e y rs P = msg2 P y rs e).
+      { unfold msg2_expected, msg2, d_c2, l_c2, d_h2, l_h2, d_c1, l_c1, d_h1, l_h1, d_k2, l_k2, d_k1, l_k1.
+        rewrite Ep, (dh_comm e y), (dh_comm e rs). reflexivity. }
+      pose proof (answered_origin tr0 V0 _ _ _ _ N1) as NL.
+      repeat split; auto.
+    - exfalso. unfold d_c3, payload in E. discriminate E.
+    - exfalso. unfold d_c4, d_key, d_k2, d_k1, ck0 in E. discriminate E.
+  Qed.
+
+  (* AUTHENTICATION WITH AGREEMENT, listener (it finishes last).  If an honest listener session
+     (agent a, secrets e, s) completes believing in an uncompromised P, then a dialer session of P
+     with the ephemeral key g^y this listener answered and the static key g^rs it received has
+     COMPLETED, accepting exactly this listener — agent a, static key g^s — with the very same
+     session key, and was created with the same prologue. *)
+  Theorem listener_agreement tr a e s P rs K :
+    valid tr -> In (AcceptL a e s P rs K) tr -> ~ bad P ->
+    exists y, K = l_key e s y rs /\ In (NewD P y rs) tr /\ In (AcceptD P y rs a s K) tr /\
+              pro e = pro y.
+  Proof.
+    intros V A G.
+    destruct (acceptL_origin tr V _ _ _ _ _ _ A) as (tr0 & y & I0 & V0 & N0 & _ & K0 & ->).
+    destruct (delivered_payload tr0 P rs _ V0 K0 G) as (_ & e' & O).
+    { unfold msg3_expected, l_c4. cbn [sigok]. tauto. }
+    destruct (session_secrets tr0 V0 P e' rs O) as [_ Hrs].
+    destruct (session_secrets tr0 V0 a e s (or_intror N0)) as [He _].
+    pose proof (knows_encok_valid tr0 _ V0 K0) as EK.
+    unfold msg3_expected in EK. cbn [encok] in EK. destruct EK as (_ & EK).
+    unfold l_c4 in EK. cbn [encok] in EK. destruct EK as ([PK|HE] & _).
+    { exfalso. unfold l_key in PK. cbn [pub] in PK. destruct PK as [_ PK]. apply pub_dh in PK. tauto. }
+    exists y. split; [reflexivity|].
+    destruct HE as [(a' & e1 & s1 & y1 & _ & [E|E])|(a' & e1 & s1 & y1 & rs1 & P1 & AD & [E|E])].
+    - exfalso. unfold l_c1, l_key, l_k2, l_k1, ck0 in E. discriminate E.
+    - exfalso. unfold l_c2, l_key, l_k2, l_k1, ck0 in E. discriminate E.
+    - exfalso. unfold d_c3, l_key, l_k2, d_k2, d_k1, l_k1, ck0 in E. discriminate E.
+    - unfold d_c4, l_c4, l_key, d_key, l_h4, d_h4, l_c3, d_c3, l_h3, d_h3, l_c2, d_c2, l_h2, d_h2,
+        l_h1, d_h1, hm1, payload, signed_part in E.
+      injection E. intros Es1 Ea' _ _ Ers1 EP1 _ _ Ey1 Ee1 Ep. repeat (intros _).
+      subst s1 a' rs1 P1 y1 e1.
+      assert (EKey : d_key y rs e s = l_key e s y rs).
+      { unfold d_key, l_key, d_k2, l_k2, d_k1, l_k1.
+        rewrite (dh_comm y e), (dh_comm y s), (dh_comm rs e). reflexivity. }
+      rewrite EKey in AD. apply I0 in AD.
+      destruct (acceptD_origin tr V _ _ _ _ _ _ AD) as (tr1 & y2 & I1 & _ & N1 & _).
+      repeat split; auto.
+  Qed.
+
 End DY.
 
 (* ---- non-vacuity: the honest run is a valid trace in which both sessions complete with the
-   same key, with nobody compromised ---- *)
+   same key, with nobody compromised — provided the two sessions were created with the same
+   prologue (with different ones the dialer would not accept message 2) ---- *)
 Definition nobody (_ : N) : Prop := False.
 
-Definition honest_trace : list event :=
+Definition honest_trace (pro : N -> list N) : list event :=
   [AcceptL 20 3 4 10 2 (l_key 3 4 1 2);
-   AcceptD 10 1 2 20 4 (d_key 1 2 3 4); Send (msg3 10 1 2 3 4 20);
-   Send (msg2 20 3 4 1);
+   AcceptD 10 1 2 20 4 (d_key 1 2 3 4); Send (msg3 pro 10 1 2 3 4 20);
+   Send (msg2 pro 20 3 4 1); Answered 20 3 4 1;
    Signed 20 (signed_part 4); NewL 20 3 4;
    Send (TPub 1); Signed 10 (signed_part 2); NewD 10 1 2].
 
-Lemma honest_trace_valid : valid nobody nobody honest_trace.
+Lemma honest_trace_valid pro : pro 1 = pro 3 -> valid pro nobody nobody (honest_trace pro).
 Proof.
+  intros EP.
   assert (F : forall tr x, (forall a e s, In (NewD a e s) tr \/ In (NewL a e s) tr -> x <> e /\ x <> s) ->
                            fresh nobody tr x).
   { intros tr x Hx. split; [intros []|]. intros (a & e & s & U & [E|E]); destruct (Hx a e s U); congruence. }
+  assert (M2 : msg2_expected pro 1 3 4 20 = msg2 pro 20 3 4 1).
+  { unfold msg2_expected, msg2, d_c1, l_c1, d_c2, l_c2, d_h2, l_h2, d_c1, l_c1, d_h1, l_h1, d_k2, l_k2, d_k1, l_k1.
+    rewrite EP. reflexivity. }
+  assert (M3 : msg3_expected pro 20 3 4 1 2 10 = msg3 pro 10 1 2 3 4 20).
+  { unfold msg3_expected, msg3, l_c3, d_c3, l_c4, d_c4, l_h4, d_h4, l_c3, d_c3, l_h3, d_h3, l_key, d_key,
+      d_c2, l_c2, d_h2, l_h2, d_c1, l_c1, d_h1, l_h1, d_k2, l_k2, d_k1, l_k1.
+    rewrite EP. reflexivity. }
   unfold honest_trace.
-  apply (v_L4 nobody nobody _ 20 3 4 1 2 10).
-  - apply (v_D3 nobody nobody _ 10 1 2 3 4 20).
+  apply (v_L4 pro nobody nobody _ 20 3 4 1 2 10).
+  - apply (v_D3 pro nobody nobody _ 10 1 2 3 4 20).
     + apply v_L2.
       * apply v_newL.
         -- apply v_newD; [apply v_nil| | |discriminate]; apply F; intros a e s [[]|[]].
@@ -633,10 +886,10 @@ Proof.
         -- discriminate.
       * cbn. auto.
     + cbn. auto 10.
-    + apply k_sent. left. reflexivity.
+    + rewrite M2. apply k_sent. left. reflexivity.
   - cbn. auto 10.
   - cbn. auto 10.
-  - apply k_sent. right. left. reflexivity.
+  - rewrite M3. apply k_sent. right. left. reflexivity.
 Qed.
 
 Lemma honest_trace_keys_agree : d_key 1 2 3 4 = l_key 3 4 1 2.
